@@ -12,7 +12,7 @@ from __future__ import annotations
 import itertools
 from collections import Counter
 
-from .. import chains, contracts
+from .. import chains, contracts, core
 
 RULE = ("one case per (type-level chain, pattern pair); each case renders the chain in 3..24 input orders; non-trivial = nesting depth >= 2; "
         "distinct by canonical hash of (tree, pattern pair)")
@@ -20,7 +20,7 @@ ANCHORS = ["decaylanguage.decay.decay:DecayChain.to_string", "decaylanguage.deca
            "decaylanguage.utils.utilities:DescriptorFormat.format_descriptor"]
 WORKERS = {"quick": 4, "thorough": 16}
 WTESTS = {"groups": ['to_string'], "tests": ['tests/decay', 'tests/utils']}
-REQUIRED = {"cascade-of-10-or-more-decays": 3, "sub-decay-without-daughters": 10, "depth>=3": 50, "name-with-paren": 50, "name-with-quote-or-sign": 50, "repeated-subdecay": 50, "orders-compared": 500, "queried-before-to_string": 50, "rendered-before-inside-after-block": 50, "context-object-re-entered-inside-its-block": 20, "rejected-format-request-before-rendering": 20, "block-left-through-an-exception": 20, "format-through-a-subclass": 20, "context-objects-prepared-before-nesting": 20, "config-assigned-by-hand-before-the-block": 20, "patterns-set-by-hand-and-handed-back": 20,
+REQUIRED = {"object-hashed-compared-printed-or-copied-before-rendering": 50, "object-hashed-compared-printed-or-copied-inside-a-format-block": 20, "built-from-the-dictionary-form": 50, "cascade-of-10-or-more-decays": 3, "sub-decay-without-daughters": 10, "depth>=3": 50, "name-with-paren": 50, "name-with-quote-or-sign": 50, "repeated-subdecay": 50, "orders-compared": 500, "queried-before-to_string": 50, "rendered-before-inside-after-block": 50, "context-object-re-entered-inside-its-block": 20, "rejected-format-request-before-rendering": 20, "block-left-through-an-exception": 20, "format-through-a-subclass": 20, "context-objects-prepared-before-nesting": 20, "config-assigned-by-hand-before-the-block": 20, "patterns-set-by-hand-and-handed-back": 20,
             **{f"pattern-pair-{i}": 20 for i in range(8)}, "C13.to_string.reads_back": 500}
 EXHAUSTIVE_NOTE = "tree shapes <= 5 (quick) / 6 (thorough) decaying particles enumerated with multiplicities 1..2; all daughter orders for small chains"
 ASSUMPTIONS = ["names contain no blanks and have balanced parentheses (all real particle names do)", "brackets of the pattern family do not occur in names"]
@@ -42,6 +42,7 @@ _seen: dict = {}
 
 _built = [0]
 _preset = []
+_hits: list = []
 
 
 def _preset_class():
@@ -64,6 +65,10 @@ def build(types, m, order, fs_orders):
     # every second chain gets its final states as DaughtersDict objects which the caller then goes on editing (to derive the next mode from them)
     given = {k: list(fs_orders.get(k, types[k][1])) for k in order}
     _built[0] += 1
+    if _built[0] % 5 == 0:
+        # the other documented constructor: the chain written down as a dictionary (daughters in the order given)
+        _hits.append("built-from-the-dictionary-form")
+        return DecayChain.from_dict(chains.ref_dict(types, m, given))
     if _built[0] % 2:
         return DecayChain(m, {k: DecayMode(types[k][0], given[k], model="PHSP") for k in order})
     objs = {k: DaughtersDict(given[k]) for k in order}
@@ -118,10 +123,16 @@ def check_case(ctx, case, workload):
     strings = []
     for o, fo in variants:
         ok, dc = ctx.guard("descriptor:construct", wit, build, types, m, o, fo)
+        while _hits:
+            ctx.hit(_hits.pop())
         if not ok:
             return
 
         def render(dc=dc, first=(len(strings) == 0)):
+            if rng.random() < 0.25:
+                # what a user does with the object in passing (hashes it, compares it, prints it, copies it) -- here while the default format is in force
+                ctx.hit("object-hashed-compared-printed-or-copied-before-rendering")
+                core.poke(dc, rng)
             if first and rng.random() < 0.4:
                 # other read-only queries on the same object first
                 ctx.hit("queried-before-to_string")
@@ -176,6 +187,9 @@ def check_case(ctx, case, workload):
             with fmt:
                 if first and rng.random() < 0.3:
                     rejected_request()
+                if rng.random() < 0.25:
+                    ctx.hit("object-hashed-compared-printed-or-copied-inside-a-format-block")
+                    core.poke(dc, rng)
                 if first and rng.random() < 0.5:
                     # the same context object used again inside its own block (e.g. by a helper): afterwards its patterns are still in force
                     ctx.hit("context-object-re-entered-inside-its-block")
